@@ -118,6 +118,31 @@ func checkC09(p *Program, r *Report) {
 		nRoots++
 		fname := funcName(fn)
 		site := p.Pos(body.Pos())
+		// the exit sequence of an invocation may live in a helper of its own that the roots share (run the statement, run the
+		// deferred calls, clear the return marker): when the root's body call is such a helper - a function on the record that
+		// is not an evaluator and that contains the evaluator call - the helper is judged in the root's place; the root must
+		// reach it, which it does: it is the first call on the record
+		if callee := m.calleeOnBase(body, base); callee != nil && m.evalRole(body, base) == "" && len(callee.Blocks) > 0 && callee != runner {
+			hb := m.baseOf(callee)
+			var inner *ssa.Call
+			callsRunner := false
+			for _, b := range callee.Blocks {
+				for _, in := range b.Instrs {
+					if c, ok := in.(*ssa.Call); ok {
+						if c2 := m.calleeOnBase(c, hb); c2 != nil && inner == nil && (va.mayWrite[c2] || m.evalRole(c, hb) != "") && c2 != runner {
+							inner = c
+						}
+						if staticCallee(c) == runner {
+							callsRunner = true
+						}
+					}
+				}
+			}
+			if inner != nil && callsRunner {
+				fn, base, body = callee, hb, inner
+				fname = fname + " through " + funcName(callee)
+			}
+		}
 		var guard *ssa.BasicBlock
 		for _, b := range fn.Blocks {
 			if iff, ok := b.Instrs[len(b.Instrs)-1].(*ssa.If); ok && m.isDefersNonEmptyTest(iff.Cond, base) {
